@@ -89,14 +89,16 @@ package sm9
 // ---- master private keys from bytes (C14): a scalar longer than the group order's 32 bytes is refused
 // before it could be reduced modulo the order (which would yield a DIFFERENT key than the one encoded);
 // an error comes with no key
-//@ func NewEncryptMasterPrivateKey property C14
+//@ func NewEncryptMasterPrivateKey property C14,C12
 //@   ensures len(key) > 32 ==> err != nil
+//@   assert before call isLess#1: sameslice(arg1, bn256.OrderMinus1Bytes)
 //@   ensures err != nil ==> result0 == nil
 //@   ensures err == nil ==> result0 != nil
 //@   heapnonnil
 //@   modifies everything
-//@ func NewSignMasterPrivateKey property C14
+//@ func NewSignMasterPrivateKey property C14,C12
 //@   ensures len(key) > 32 ==> err != nil
+//@   assert before call isLess#1: sameslice(arg1, bn256.OrderMinus1Bytes)
 //@   ensures err != nil ==> result0 == nil
 //@   ensures err == nil ==> result0 != nil
 //@   heapnonnil
